@@ -456,7 +456,19 @@ func (p c05) Run(c *core.Ctx, idx int) {
 		decoy += "    leaf tgt { " + leafType + " }\n"
 		leafType = "type leafref { path \"../tgt\"; }"
 	}
-	yang := fmt.Sprintf("module m {\n  namespace \"urn:m\";\n  prefix m;\n  revision 2020-01-01;\n%s%s  container c {\n    %s x { %s }\n    leaf other { type string; }\n%s  }\n}\n", idents, tds, kw, leafType, decoy)
+	// where the typedefs of the chain live: in the module, or in container c itself with a sibling container (written first) that
+	// defines typedefs of the same names and quite another meaning (RFC 7950 5.5: sibling scopes may reuse a name)
+	localTds, sibling := "", ""
+	if tds != "" && (idx/7)%3 == 1 {
+		localTds = strings.ReplaceAll(tds, "  typedef", "    typedef")
+		sibling = "  container sib {\n"
+		for i := 0; i+1 < len(t.levels); i++ {
+			sibling += fmt.Sprintf("    typedef td%d { type string; }\n", i)
+		}
+		sibling += fmt.Sprintf("    leaf sx { type td%d; }\n  }\n", len(t.levels)-2)
+		tds = ""
+	}
+	yang := fmt.Sprintf("module m {\n  namespace \"urn:m\";\n  prefix m;\n  revision 2020-01-01;\n%s%s%s  container c {\n%s    %s x { %s }\n    leaf other { type string; }\n%s  }\n}\n", idents, tds, sibling, localTds, kw, leafType, decoy)
 	var mod *meta.Module
 	var err error
 	if c.Guard("load", func() { mod, err = parser.LoadModuleFromString(nil, yang) }) {
@@ -482,6 +494,9 @@ func (p c05) Run(c *core.Ctx, idx int) {
 		cs.Children = append(cs.Children, &dp.SNode{Kind: dp.Leaf, Name: "tgt", Type: t.stype()})
 	}
 	s := &dp.Schema{Name: "m", Prefix: "m", NS: "urn:m", Top: []*dp.SNode{cs}}
+	if sibling != "" {
+		s.Top = []*dp.SNode{{Kind: dp.Container, Name: "sib", Children: []*dp.SNode{{Kind: dp.Leaf, Name: "sx", Type: &dp.SType{Base: "string"}}}}, cs}
+	}
 	if err := s.BindTo(mod); err != nil {
 		c.R.Inconclusive = "bind: " + err.Error()
 		return
@@ -541,8 +556,22 @@ func (p c05) Run(c *core.Ctx, idx int) {
 			c.Shape("%s/%s/%s/%s/list=%v", t.base, kinds, cls, path, t.list)
 			var werr error
 			desc := fmt.Sprintf("%s write of %s to %s x { %s }", path, lval, kw, leafType)
+			// the selection the write goes through: found plainly, found with request parameters, or narrowed afterwards (what a server
+			// does with the query string of a PUT / PATCH): the type of x is checked all the same
+			how := (idx/4 + len(cand)) % 4
 			panicked := c.Guard(desc, func() {
-				csel, e := b.Root().Find("c")
+				var csel *node.Selection
+				var e error
+				switch how {
+				case 1:
+					csel, e = b.Root().Find("c?depth=10")
+				case 2:
+					if csel, e = b.Root().Find("c"); e == nil && csel != nil {
+						csel, e = csel.Constrain("content=all")
+					}
+				default:
+					csel, e = b.Root().Find("c")
+				}
 				if e != nil || csel == nil {
 					werr = fmt.Errorf("verif: container not found: %v", e)
 					return
@@ -610,6 +639,12 @@ func (p c05) Run(c *core.Ctx, idx int) {
 			sig += "/" + path
 			if via != "" {
 				sig += "/via-" + via
+			}
+			if how == 1 || how == 2 {
+				sig += "/constrained-selection"
+			}
+			if sibling != "" {
+				sig += "/local-typedefs"
 			}
 			if strings.Contains(rc, "one-of-several") {
 				// several pattern statements: the library accepts a value matching ANY of them (pinned by its own
